@@ -18,8 +18,7 @@ Lemma names_text :
   sq_filename false = codes "sqlite.v1.db" /\ sq_filename true = codes "sqlite-testing.v1.db" /\
   pw_filename false = codes "peewee-sqlite.v2.db" /\ pw_filename true = codes "peewee-sqlite-testing.v2.db" /\
   pw_ds_name false = codes "peewee-sqlite" /\ pw_ds_name true = codes "peewee-sqlite-testing" /\
-  sq_created_files true = List.map codes
-    ("sqlite-testing.v1.db" :: "sqlite-testing.v1.db-shm" :: "sqlite-testing.v1.db-wal" :: nil)%string /\
+  sq_created_files true = codes "sqlite-testing.v1.db" :: nil /\
   vtag 2 = codes "v2" /\ vtag (-13) = codes "v-13" /\ vtag 0 = codes "v0" /\ vtag 1024 = codes "v1024".
 Proof. repeat split; reflexivity. Qed.
 
@@ -172,7 +171,15 @@ Proof. intros []; vm_compute; discriminate. Qed.
 
 (* the names the two stores themselves create in the data dir *)
 Definition store_files : list name :=
-  flat_map (fun t => pw_filename t :: sq_created_files t) [true; false].
+  flat_map (fun t => [pw_filename t; sq_filename t;
+                      sq_filename t ++ [45; 115; 104; 109]  (* "-shm" *);
+                      sq_filename t ++ [45; 119; 97; 108]   (* "-wal" *)]) [true; false].
+
+Lemma store_files_text :
+  store_files = List.map codes
+    ("peewee-sqlite-testing.v2.db" :: "sqlite-testing.v1.db" :: "sqlite-testing.v1.db-shm" :: "sqlite-testing.v1.db-wal" ::
+     "peewee-sqlite.v2.db" :: "sqlite.v1.db" :: "sqlite.v1.db-shm" :: "sqlite.v1.db-wal" :: nil)%string.
+Proof. reflexivity. Qed.
 
 Lemma store_files_match : forall testing n,
   In n store_files -> legacy_match testing n = name_eqb (pw_filename testing) n.
